@@ -6,6 +6,7 @@
 // ops  : ';'-separated   i:<k>=<v> insert | r:<k> remove | f:<k> find | l:<k> find at-or-below |
 //        b begin | e last | E end | n ++ | p -- | a:<k>=<v> iterator insertAfter | d iterator remove
 //        (for name trees <k> in ops is h<hex of UTF-8>)
+//        optional 5th argument <every>: the tree is dumped only after every <every>-th op and after the last ('#' otherwise)
 // out  : per op  <result>@<dump>  joined by ';'
 //        result: iterator state  k=v | end ; remove: R1:<v> | R0 ; w<n> appended when qpdf warned;
 //        "err:<class>" when an exception escaped
@@ -148,7 +149,7 @@ namespace
     }
 
     template <class H, class KeyOf>
-    std::string run(Ctx& c, int threshold, std::string const& init, std::string const& ops, KeyOf keyof)
+    std::string run(Ctx& c, int threshold, std::string const& init, std::string const& ops, int every, KeyOf keyof)
     {
         P p{c, init};
         auto root = c.q.makeIndirectObject(p.node(true, nullptr, nullptr));
@@ -159,6 +160,9 @@ namespace
         std::stringstream ss(ops);
         std::string op;
         bool first = true;
+        size_t nops = 0, opno = 0;
+        for (char ch: ops) nops += (ch == ';');
+        ++nops;
         auto iter_text = [&](typename H::iterator& it) -> std::string {
             if (!it.valid()) return "end";
             auto& pr = *it;
@@ -246,7 +250,9 @@ namespace
             auto w = c.q.getWarnings();
             if (!w.empty()) res += "w" + std::to_string(w.size());
             out += res + "@";
-            dump(c, root, out, 0);
+            ++opno;
+            if (every <= 1 || opno % static_cast<size_t>(every) == 0 || opno == nops) dump(c, root, out, 0);
+            else out += "#";
         }
         return out;
     }
@@ -258,10 +264,11 @@ static Reg r_nn("nn", [](std::vector<std::string> const& a) -> std::string {
     c.q.emptyPDF();
     c.q.setSuppressWarnings(true);
     int t = std::stoi(a.at(1));
+    int every = a.size() > 4 ? std::stoi(a.at(4)) : 1;
     if (c.names) {
-        return run<QPDFNameTreeObjectHelper>(c, t, a.at(2), a.at(3), [](std::string const& s) {
+        return run<QPDFNameTreeObjectHelper>(c, t, a.at(2), a.at(3), every, [](std::string const& s) {
             return unhex(s.size() > 1 ? s.substr(1) : std::string("-"));
         });
     }
-    return run<QPDFNumberTreeObjectHelper>(c, t, a.at(2), a.at(3), [](std::string const& s) { return std::stoll(s); });
+    return run<QPDFNumberTreeObjectHelper>(c, t, a.at(2), a.at(3), every, [](std::string const& s) { return std::stoll(s); });
 });
